@@ -831,6 +831,12 @@ func grpcErrorToTrailer(bufferPool *bufferPool, trailer http.Header, protobuf Co
 		trailer.Set(grpcHeaderMessage, "")
 		return
 	}
+	if connectErr, ok := asError(err); ok {
+		// First of all: the error's metadata travels as plain fields and needs
+		// neither the status nor a codec, so it goes out even if the status
+		// below cannot be built.
+		mergeMetadata(trailer, connectErr.meta)
+	}
 	status, statusErr := grpcStatusFromError(err)
 	if statusErr != nil {
 		trailer.Set(
@@ -858,9 +864,6 @@ func grpcErrorToTrailer(bufferPool *bufferPool, trailer http.Header, protobuf Co
 			),
 		)
 		return
-	}
-	if connectErr, ok := asError(err); ok {
-		mergeMetadata(trailer, connectErr.meta)
 	}
 	trailer.Set(grpcHeaderStatus, code)
 	trailer.Set(grpcHeaderMessage, grpcPercentEncode(bufferPool, status.Message))
